@@ -103,7 +103,7 @@ pub fn alphabet() -> Vec<Op> {
     a
 }
 
-const SHARD_VARIANTS: [(usize, usize); 3] = [(1, 2), (2, 1), (3, 3)];
+const SHARD_VARIANTS: [(usize, usize); 4] = [(1, 2), (2, 1), (3, 3), (2, 0)];
 
 /// number of systematic cases with exactly `len` operations after the prefix
 pub fn count(len: u32) -> u64 {
